@@ -2,9 +2,11 @@ package dns
 
 func init() {
 	vRegister("H_C10_verify_ref", H_C10_verify_ref)
+	vRegister("H_C10_verify_deep", H_C10_verify_deep)
 	vRegister("H_C10_sign_ref", H_C10_sign_ref)
 	vRegister("H_C10_prechecks", H_C10_prechecks)
 	vRegister("H_C10_vacuity", H_C10_vacuity)
+	vRegister("H_C16_signverify", H_C16_signverify)
 }
 
 // vC10Types: signable types in the order used by the C10.types bound. The first 21 are the RFC 4034 section 6.2
@@ -12,7 +14,7 @@ func init() {
 var vC10Types = []uint16{TypeNS, TypeMX, TypeSOA, TypeSRV, TypeCNAME, TypeDNAME, TypePTR, TypeRP, TypeMINFO, TypeAFSDB,
 	TypeRT, TypeKX, TypePX, TypeNAPTR, TypeSIG, TypeMD, TypeMF, TypeMB, TypeMG, TypeMR, TypeNXT,
 	// not lower-cased: no names, or (NSEC, RRSIG, SVCB, HIP, TALINK ...) names kept as they are
-	TypeA, TypeTXT, TypeNSEC, TypeHINFO, TypeDNSKEY, TypeSVCB, TypeTALINK, TypeLP}
+	TypeA, TypeTXT, TypeNSEC, TypeHINFO, TypeDNSKEY, TypeTALINK, TypeLP, TypeSVCB}
 
 func refC10Lowercased(t uint16) bool {
 	for _, x := range vC10Types[:21] {
@@ -29,17 +31,19 @@ func vC10Alg() uint8 { return vSigAlgs[vChoice("alg", vParam("C10.algs", len(vSi
 func vC10Owner() (labels [][]byte, wildcard bool) {
 	x := vU8("ownerletter")
 	vAssume(x >= 'a' && x <= 'z' || x >= 'A' && x <= 'Z')
-	switch vChoice("owner", vParam("C10.owners", 5)) {
+	sx := vU8("ownersuffixletter") // the zone label is "ex" with its second letter in either case
+	vAssume(sx == 'x' || sx == 'X')
+	switch vParam("C10.ownerbase", 0) + vChoice("owner", vParam("C10.owners", 5)) {
 	case 0:
-		return [][]byte{{x}, []byte("eX")}, false
-	case 1: // wildcard owner
-		return [][]byte{{'*'}, {x}, []byte("eX")}, true
-	case 2: // label that merely starts with an asterisk: not a wildcard
-		return [][]byte{{'*', x}, []byte("eX")}, false
-	case 3: // label containing a dot (escaped in presentation form)
-		return [][]byte{{x, '.', 'b'}, []byte("eX")}, false
-	default: // deeper name
-		return [][]byte{{'w'}, {x, 'y'}, {'z'}, []byte("eX")}, false
+		return [][]byte{{x}, {'e', sx}}, false
+	case 1: // deeper name (room for wildcard expansions that replace more than one label)
+		return [][]byte{{'w'}, {x, 'y'}, {'z'}, {'e', sx}}, false
+	case 2: // wildcard owner
+		return [][]byte{{'*'}, {x}, {'e', sx}}, true
+	case 3: // label that merely starts with an asterisk: not a wildcard
+		return [][]byte{{'*', x}, {'e', sx}}, false
+	default: // label containing a dot (escaped in presentation form)
+		return [][]byte{{x, '.', 'b'}, {'e', sx}}, false
 	}
 }
 
@@ -223,8 +227,9 @@ func H_C10_verify_ref() {
 	s := &RRSIG{Hdr: RR_Header{Name: c.ownerText, Rrtype: TypeRRSIG, Class: c.class, Ttl: vU32("sigttl")}}
 	s.TypeCovered, s.Algorithm = c.t, c.alg
 	s.Labels = refC10Labels(c.owner)
-	if !(len(c.owner[0]) == 1 && c.owner[0][0] == '*') && len(c.owner) > 1 && vChoice("expanded", 2) == 1 {
-		s.Labels-- // the RRset was synthesised from a wildcard one label up
+	if !(len(c.owner[0]) == 1 && c.owner[0][0] == '*') && len(c.owner) > 1 {
+		// the RRset was synthesised from a wildcard 1..2 labels up (RFC 4035 5.3.2: "*." + the rightmost Labels labels)
+		s.Labels -= uint8(vChoice("expanded", min(len(c.owner)-1, 3))) // Labels stays >= 1
 	}
 	s.OrigTtl, s.Expiration, s.Inception = vU32("origttl"), vU32("expir"), vU32("incep")
 	s.KeyTag = refKeyTag(append([]byte{byte(c.key.Flags >> 8), byte(c.key.Flags), c.key.Protocol, c.key.Algorithm}, vPubOctets(c.alg)...))
@@ -235,6 +240,38 @@ func H_C10_verify_ref() {
 	err := s.Verify(c.key, c.rrs)
 	vObserve("verify", c.t, len(c.rrs), err)
 	vAssert(err == nil, "verify-accepts-signature-over-rfc4034-canonical-octets")
+}
+
+// H_C10_verify_deep: the same harness, run with the four-label owner (C10.ownerbase=1) so that wildcard
+// expansions replacing two labels are inside.
+func H_C10_verify_deep() { H_C10_verify_ref() }
+
+// H_C16_signverify: signing and verifying an RRset are read-only on the records (C16): whatever the current TTLs
+// (in particular equal to the RRSIG's original TTL), owner case and RDATA-name case are, the caller's records are
+// bit-for-bit what they were.
+func H_C16_signverify() {
+	c := vC10Build()
+	var snaps []int
+	for _, rr := range c.rrs {
+		snaps = append(snaps, vSnapshot(rr))
+	}
+	s := &RRSIG{KeyTag: c.key.KeyTag(), SignerName: c.signer, Algorithm: c.alg, Expiration: vU32("expir"), Inception: vU32("incep")}
+	if vChoice("origttl", 2) == 1 {
+		s.OrigTtl = vU32("origttl")
+	}
+	err := s.Sign(vSigner{c.alg}, c.rrs)
+	vReach("signed")
+	for i, rr := range c.rrs {
+		vAssert(vSame(rr, snaps[i]), "sign-leaves-the-rrset-unchanged")
+	}
+	if err != nil {
+		return
+	}
+	err = s.Verify(c.key, c.rrs)
+	vObserve("signverify", c.t, err)
+	for i, rr := range c.rrs {
+		vAssert(vSame(rr, snaps[i]), "verify-leaves-the-rrset-unchanged")
+	}
 }
 
 // H_C10_sign_ref: Sign fills the RRSIG per RFC 4034 section 3.1, its signature is valid for the RFC canonical octets
